@@ -274,7 +274,7 @@ func Run(p *ir.Program, id, tier, outDir, knownPath string, t0 time.Time) int {
 	}
 	if tier == "thorough" {
 		cov["seeded_change_selftest"] = map[string]any{
-			"what":    "each kept seeded change recorded as detected is applied to a scratch copy of the current tree and the same rules are run on the copy (source only); it must be reported there. A miss makes this run UNDECIDED, never a violation.",
+			"what":    "each kept seeded change recorded as detected is applied to the current tree as a source overlay (the files it touches are copied, patched and substituted; nothing is executed) and the same rules are run on the result; it must be reported there. A miss makes this run UNDECIDED, never a violation.",
 			"results": selftest,
 		}
 	}
